@@ -7,6 +7,7 @@ CONSTANTS
   ExDts = {0, 2}
   Acts = {"Scrape", "Exemplar", "Meta", "Delete", "Evict", "Truncate", "Restart"}
   Script <- NoScript
+  PreCuts = {0, 3}
   MetaOrds = {"asc", "desc"}
   EmitMode = "class"
 VIEW View
